@@ -347,12 +347,18 @@ class SimE(Simulator):
             r = rng.random()
             if r < 0.25:
                 ops.append(["inject", rng.choice(["LongA: 6", "LongB: 6", "LongC: 5", "Ramp: 5", "Simulate: PV1 = 4 L/h",
-                                                  "Boom", "BadArgs: 1", "BoomInit"])])
+                                                  "Boom", "BadArgs: 1", "BoomInit", "Spin", "Spin\nSpin"])])
             elif r < 0.75:
                 ops.append(["user", rng.choice(["Stop", "Restart", "Restart"])])
                 ops.append(["tick", rng.choice([1, 2, 3, 5]), 0.1])
                 if rng.random() < 0.5:
                     ops.append(["user", "Start"])
+            elif r < 0.88:
+                # a command button: once, twice in one gap (double click), or in the tick in which the method issues it
+                c = rng.choice(["Spin", "Spin", "Spin", "Boom", "Valve"])
+                ops.append(["user", c])
+                if rng.random() < 0.5:
+                    ops.append(["user", c])
             else:
                 ops.append(["user", rng.choice(["Pause", "Hold", "Unpause", "Unhold"])])
         ops.append(["tick", rng.choice([2, 8, 20]), 0.1])
